@@ -370,6 +370,13 @@ func (ctx *Context) evaluate() {
 	e := ctx
 	// ctx := &e.Context
 	var details []BufferSpan
+	lastDetail := func() *BufferSpan {
+		if len(details) == 0 {
+			// 没有对应的 mark.detail，补一个空的以免越界
+			details = append(details, BufferSpan{})
+		}
+		return &details[len(details)-1]
+	}
 	numOpCountAdd := func(count IntType) bool {
 		if count > math.MaxInt-e.NumOpCount {
 			// 避免相加溢出后变为负数，从而绕过算力上限
@@ -448,7 +455,20 @@ func (ctx *Context) evaluate() {
 	}
 
 	var lastPop *VMValue
+	// 字节码不完整时(通常来自被放弃的语法分支留下的指令)，栈、语句块、骰点状态可能并不存在，
+	// 这里统一报错而不是越界崩溃
+	errInvalidCode := func() {
+		if ctx.Error == nil {
+			ctx.Error = errors.New("E3:无效的表达式")
+		}
+	}
+
 	stackPop := func() *VMValue {
+		if e.top <= 0 {
+			errInvalidCode()
+			lastPop = NewNullVal()
+			return lastPop
+		}
 		v := &e.stack[e.top-1]
 		e.top -= 1
 		lastPop = v
@@ -644,11 +664,11 @@ func (ctx *Context) evaluate() {
 				stackPush(NewIntVal(100))
 			}
 
-			if ctx.parser == nil || len(details) == 0 {
+			if ctx.parser == nil || len(details) == 0 || diceStateIndex < 0 {
 				// 预编译的函数体没有parser(无原文)，其计算过程也不会被使用，无需改写
 				break
 			}
-			d := &details[len(details)-1]
+			d := lastDetail()
 			dText := string(ctx.parser.data[d.Begin:d.End])
 
 			if !regexp.MustCompile("[dD][优優劣][势勢]").MatchString(dText) {
@@ -813,7 +833,7 @@ func (ctx *Context) evaluate() {
 			isRaw := typeLoadNameRaw == code.T
 
 			if withDetail {
-				detail := &details[len(details)-1]
+				detail := lastDetail()
 				detail.Tag = "load"
 				detail.Text = ""
 				val = ctx.LoadNameWithDetail(name, isRaw, true, detail)
@@ -827,6 +847,10 @@ func (ctx *Context) evaluate() {
 			stackPush(val)
 
 		case typeStoreName:
+			if e.top <= 0 {
+				errInvalidCode()
+				return
+			}
 			v := e.stack[e.top-1].Clone()
 			name := code.Value.(string)
 
@@ -836,6 +860,10 @@ func (ctx *Context) evaluate() {
 			}
 		case typeStoreNameLocal:
 			// this.x = v，与 push.this + attr.get 读取的是同一处(当前上下文的局部变量)
+			if e.top <= 0 {
+				errInvalidCode()
+				return
+			}
 			v := e.stack[e.top-1].Clone()
 			name := code.Value.(string)
 
@@ -899,6 +927,10 @@ func (ctx *Context) evaluate() {
 		case typeDiceInit:
 			diceInit()
 		case typeDiceSetTimes:
+			if diceStateIndex < 0 {
+				errInvalidCode()
+				return
+			}
 			v := stackPop()
 			times, ok := v.ReadInt()
 			if !ok || times <= 0 {
@@ -907,6 +939,10 @@ func (ctx *Context) evaluate() {
 			}
 			diceStates[diceStateIndex].times = times
 		case typeDiceSetKeepLowNum:
+			if diceStateIndex < 0 {
+				errInvalidCode()
+				return
+			}
 			v := stackPop()
 			num, ok := readIntOperand(v, "骰子取低个数")
 			if !ok {
@@ -915,6 +951,10 @@ func (ctx *Context) evaluate() {
 			diceStates[diceStateIndex].isKeepLH = 1
 			diceStates[diceStateIndex].lowNum = num
 		case typeDiceSetKeepHighNum:
+			if diceStateIndex < 0 {
+				errInvalidCode()
+				return
+			}
 			v := stackPop()
 			num, ok := readIntOperand(v, "骰子取高个数")
 			if !ok {
@@ -923,6 +963,10 @@ func (ctx *Context) evaluate() {
 			diceStates[diceStateIndex].isKeepLH = 2
 			diceStates[diceStateIndex].highNum = num
 		case typeDiceSetDropLowNum:
+			if diceStateIndex < 0 {
+				errInvalidCode()
+				return
+			}
 			v := stackPop()
 			num, ok := readIntOperand(v, "骰子丢弃低个数")
 			if !ok {
@@ -931,6 +975,10 @@ func (ctx *Context) evaluate() {
 			diceStates[diceStateIndex].isKeepLH = 3
 			diceStates[diceStateIndex].lowNum = num
 		case typeDiceSetDropHighNum:
+			if diceStateIndex < 0 {
+				errInvalidCode()
+				return
+			}
 			v := stackPop()
 			num, ok := readIntOperand(v, "骰子丢弃高个数")
 			if !ok {
@@ -939,6 +987,10 @@ func (ctx *Context) evaluate() {
 			diceStates[diceStateIndex].isKeepLH = 4
 			diceStates[diceStateIndex].highNum = num
 		case typeDiceSetMin:
+			if diceStateIndex < 0 {
+				errInvalidCode()
+				return
+			}
 			v := stackPop()
 			i, ok := readIntOperand(v, "骰子最小值")
 			if !ok {
@@ -946,6 +998,10 @@ func (ctx *Context) evaluate() {
 			}
 			diceStates[diceStateIndex].min = &i
 		case typeDiceSetMax:
+			if diceStateIndex < 0 {
+				errInvalidCode()
+				return
+			}
 			v := stackPop()
 			i, ok := readIntOperand(v, "骰子最大值")
 			if !ok {
@@ -956,6 +1012,10 @@ func (ctx *Context) evaluate() {
 			span := code.Value.(BufferSpan)
 			details = append(details, span)
 		case typeDice:
+			if diceStateIndex < 0 {
+				errInvalidCode()
+				return
+			}
 			diceState := diceStates[diceStateIndex]
 
 			val := stackPop()
@@ -982,9 +1042,9 @@ func (ctx *Context) evaluate() {
 			diceStateIndex -= 1
 
 			ret := NewIntVal(num)
-			details[len(details)-1].Ret = ret
-			details[len(details)-1].Text = detail
-			details[len(details)-1].Tag = "dice"
+			lastDetail().Ret = ret
+			lastDetail().Text = detail
+			lastDetail().Tag = "dice"
 			stackPush(ret)
 
 		case typeCustomDice:
@@ -1002,7 +1062,7 @@ func (ctx *Context) evaluate() {
 
 			ret := result.Clone()
 			if len(details) > 0 {
-				detail := &details[len(details)-1]
+				detail := lastDetail()
 				detail.Ret = ret
 				if detailText != "" {
 					detail.Text = detailText
@@ -1016,9 +1076,9 @@ func (ctx *Context) evaluate() {
 		case typeDiceFate:
 			sum, detail := RollFate(ctx.RandSrc, getRollMode())
 			ret := NewIntVal(sum)
-			details[len(details)-1].Ret = ret
-			details[len(details)-1].Text = detail
-			details[len(details)-1].Tag = "dice-fate"
+			lastDetail().Ret = ret
+			lastDetail().Text = detail
+			lastDetail().Tag = "dice-fate"
 			stackPush(ret)
 
 		case typeDiceCocBonus, typeDiceCocPenalty:
@@ -1040,12 +1100,12 @@ func (ctx *Context) evaluate() {
 			isBonus := code.T == typeDiceCocBonus
 			r, detailText := RollCoC(ctx.RandSrc, isBonus, diceNum, getRollMode())
 			ret := NewIntVal(r)
-			details[len(details)-1].Ret = ret
-			details[len(details)-1].Text = detailText
+			lastDetail().Ret = ret
+			lastDetail().Text = detailText
 			if isBonus {
-				details[len(details)-1].Tag = "dice-coc-bonus"
+				lastDetail().Tag = "dice-coc-bonus"
 			} else {
-				details[len(details)-1].Tag = "dice-coc-penalty"
+				lastDetail().Tag = "dice-coc-penalty"
 			}
 			stackPush(ret)
 
@@ -1100,9 +1160,9 @@ func (ctx *Context) evaluate() {
 
 			num, _, _, detailText := RollWoD(ctx.RandSrc, addLine, wodState.pool, wodState.points, wodState.threshold, wodState.isGE, getRollMode())
 			ret := NewIntVal(num)
-			details[len(details)-1].Ret = ret
-			details[len(details)-1].Text = detailText
-			details[len(details)-1].Tag = "dice-wod"
+			lastDetail().Ret = ret
+			lastDetail().Text = detailText
+			lastDetail().Tag = "dice-wod"
 			stackPush(ret)
 
 		case typeDCSetInit:
@@ -1133,9 +1193,9 @@ func (ctx *Context) evaluate() {
 			}
 			success, _, _, detailText := RollDoubleCross(ctx.RandSrc, addLine, dcState.pool, dcState.points, getRollMode())
 			ret := NewIntVal(success)
-			details[len(details)-1].Ret = ret
-			details[len(details)-1].Text = detailText
-			details[len(details)-1].Tag = "dice-dc"
+			lastDetail().Ret = ret
+			lastDetail().Text = detailText
+			lastDetail().Tag = "dice-dc"
 			stackPush(ret)
 
 		case typeBlockPush:
@@ -1146,6 +1206,10 @@ func (ctx *Context) evaluate() {
 			blockStack[blockIndex] = e.top
 			blockIndex += 1
 		case typeBlockPop:
+			if blockIndex <= 0 {
+				errInvalidCode()
+				return
+			}
 			newTop := blockStack[blockIndex-1]
 			e.top = newTop
 			blockIndex -= 1
@@ -1164,6 +1228,10 @@ func (ctx *Context) evaluate() {
 			fstrBlockIndex += 1
 		case typeFStringBlockPop:
 			// 不管栈里多少东西，一律清空
+			if fstrBlockIndex <= 0 {
+				errInvalidCode()
+				return
+			}
 			newTop := fstrBlockStack[fstrBlockIndex-1]
 			var v *VMValue
 			if newTop != e.top {
